@@ -193,12 +193,12 @@ Print Assumptions C14_substitute_count_refuted.
 Theorem C14_assoc_refuted : refutes w_assoc_order = true.
 Proof. exact assoc_refuted. Qed.
 Print Assumptions C14_assoc_refuted.
-Theorem C14_mismatch_refuted : refutes w_mismatch_from_end = true /\ refutes w_mismatch_start = true.
+Theorem C14_mismatch_refuted : refutes w_mismatch_from_end = true.
 Proof. exact mismatch_refuted. Qed.
 Print Assumptions C14_mismatch_refuted.
-Theorem C14_replace_fill_end_refuted : refutes w_replace_end = true /\ refutes w_fill_end = true.
-Proof. exact replace_fill_end_refuted. Qed.
-Print Assumptions C14_replace_fill_end_refuted.
+Theorem C14_fill_end_refuted : refutes w_fill_end = true /\ refutes w_fill_start = true.
+Proof. exact fill_end_refuted. Qed.
+Print Assumptions C14_fill_end_refuted.
 Theorem C14_merge_tie_refuted : refutes w_merge_tie = true.
 Proof. exact merge_tie_refuted. Qed.
 Print Assumptions C14_merge_tie_refuted.
